@@ -121,6 +121,18 @@ CHECKS = {
         note="Text floats compared through the host's float(). Values are rebuilt from token lists by the harness.",
         technique="TLC-enumerated value space; TLC trace validation of xdis.marsh output/input against the reference marshal reader; host marshal as oracle",
     ),
+    "C06": dict(
+        category="model_checking",
+        text="Spec S2 (PycHeader.tla): the header reader for the three forms (timestamp; timestamp+size; PEP 552 flag word then timestamp+size or "
+             "64-bit source hash). PycHeaderMC.tla enumerates the full product released magic x flag word x field pattern (exhaustive), checks "
+             "the reader's invariants and exports every header; each is put before a recognisable code object and loaded via load_module and "
+             "load_module_from_file_object; PycHeaderTrace.tla compares version, magic, timestamp, size, hash and code start. importlib's own "
+             "_classify_pyc/_validate_* (3.7-3.13) must accept the fields the spec extracted; real py_compile output of all nine interpreters in "
+             "every invalidation mode is judged too.",
+        design_ref="DESIGN.md section 5 C06, spec S2",
+        note="Interim (pre-release) magics are not generated. PyPy header forms as observed in the corpus.",
+        technique="TLC exhaustive enumeration of header forms, behaviours replayed into load_module, TLC trace judge; importlib validators as oracle",
+    ),
 }
 
 NOT_YET = "check not built yet in this round (planned: see DESIGN.md section 5); not claimed until its machinery exists"
